@@ -166,6 +166,8 @@ class Run:
         self.user_trysubmits = {}
         self.user_busy = 0
         self.stranded = None
+        self.last_step = {}
+        self.hold = set()              # scripted schedules: jobs that keep running for now
         self.focus = None
         self.focus_weight = self.rng.choice([1, 4, 12, 40])
 
@@ -205,7 +207,7 @@ class Run:
             if b["state"] == "pending":
                 m.append((1.5, ["startbatch", h]))
         for i, jp in enumerate(vc.jobprocs):
-            if jp.exited is None and jp.returncode is None and vc.procs[jp.node].state == "ready":
+            if jp.exited is None and jp.returncode is None and vc.procs[jp.node].state == "ready" and jp.name not in self.hold:
                 m.append((2.0, ["jobexit", i]))
         return m
 
@@ -215,6 +217,7 @@ class Run:
         self.ops.append(op)
         self.last = tuple(op[:2])
         if k == "step":
+            self.last_step[op[1]] = len(self.ops)
             vc.step(op[1])
         elif k == "startbatch":
             vc.start_batch(op[1])
@@ -481,6 +484,8 @@ class Run:
             vc.create_pipeline()
             if driver is not None:
                 driver(self)
+            elif "script" in self.case:
+                SCRIPTS[self.case["script"]](self)
             elif "ops" in self.case:
                 self.replay(self.case["ops"])
             else:
@@ -528,14 +533,15 @@ class Run:
             self.apply(self.choose(menu))
 
     def det_op(self, menu):
-        """a fixed fair schedule: job ends and batch starts first, then the lowest process that is not merely polling"""
+        """a fixed fair schedule: job ends and batch starts first, then a process that is not merely polling"""
         for kind in ("jobexit", "startbatch"):
             for _, op in menu:
                 if op[0] == kind:
                     return op
         steps = [op for _, op in menu if op[0] == "step"]
         busy = [op for op in steps if self.vc.procs[op[1]].at[0] != "SLEEP"]
-        return (busy or steps)[0]
+        # among those: the one that has waited longest (round robin, so that two polling processes cannot starve each other)
+        return min(busy or steps, key=lambda op: (self.last_step.get(op[1], -1), op[1]))
 
     def drain(self):
         while len(self.ops) < MAX_OPS:
@@ -545,6 +551,17 @@ class Run:
                     break
                 continue
             self.apply(self.det_op(menu))
+
+    def until(self, cond, limit=MAX_OPS):
+        """the fixed fair schedule until cond() holds or nothing can move (scripted witnesses)"""
+        while not cond() and len(self.ops) < limit:
+            menu = self.menu()
+            if not menu:
+                if not self.at_quiescence():
+                    break
+                continue
+            self.apply(self.det_op(menu))
+        return cond()
 
     def at_quiescence(self):
         """nothing can move.  The documented recovery: the user runs try-submit-jobs on the current stage."""
@@ -659,6 +676,76 @@ class Run:
                "errors": [f"{e[3]}: {e[5]}" for e in vc.trace if e[1] == "procexit" and e[5]][:6],
                "unknown_ext": [list(e[3]) for e in vc.trace if e[1] == "unknown_ext"][:3]}
         return {"model": None, "obs": obs, "hist": project(self)}
+
+
+# ----------------------------------------------------------------------------------------------
+# scripted witnesses (corpus/syspipe/*.json: {"script": name, "sc": ...}): a fixed fair schedule with ONE decisive
+# interleaving / fault, stated by conditions on the run (robust against harmless changes of the number of steps)
+# ----------------------------------------------------------------------------------------------
+def script_squeue_outage(run):
+    """stage 1 has two batches; the first ends and its try-submit-jobs meets a squeue outage (all retries) while the other
+    batch is still running its job.  Unchanged code: that try-submit-jobs dies, the second batch completes the stage."""
+    vc = run.vc
+    held = f"j{run.sc['stages'][0]['jobs'][-1]['id']}"
+    run.hold.add(held)
+    run.apply(["spawn", "psubmit"])
+
+    def fresh_trysubmit():
+        return [p for p in vc.live() if p.kind == "trysubmit" and not run.pid_events(p.pid, "squeue")
+                and any(jp.name == held and jp.returncode is None for jp in vc.jobprocs)]
+    if run.until(lambda: bool(fresh_trysubmit())):
+        pid = fresh_trysubmit()[0].pid
+        run.faults.append("squeue7")
+        run.apply(["failext", pid, 7, "squeue"])
+        # the struck process and whatever it starts run to their end before the held job ends
+        run.until(lambda: not any(run.descends(p, pid) for p in vc.live()), limit=len(run.ops) + 600)
+    run.hold.clear()
+    run.until(lambda: False)
+
+
+def script_teardown_fork_failure(run):
+    """the completing submitter cannot START the stage's teardown command (OSError from subprocess).  Unchanged code: the
+    exception leaves try-submit-jobs with the stage incomplete and the role released; the next try-submit-jobs redoes the
+    completion and hands over once."""
+    vc = run.vc
+    run.apply(["spawn", "psubmit"])
+
+    def at_teardown():
+        return [p for p in vc.live() if p.at == ("EXT", "hook teardown")]
+    if run.until(lambda: bool(at_teardown())):
+        run.faults.append("forkfail")
+        run.apply(["forkfail", at_teardown()[0].pid, "hook"])
+    run.until(lambda: False)
+
+
+def script_duplicate_handoff(run):
+    """somebody repeats the hand-off of stage 1 (e.g. the completion of a resubmitted stage 1) while stage 2 is current.
+    Unchanged code: refused, nothing changes."""
+    run.apply(["spawn", "psubmit"])
+    if run.until(lambda: any(e[1] == "stagesubmitted" and e[3] == 2 for e in run.vc.trace)):
+        rc = next(int(e[3][2].split("=")[1]) for e in run.vc.trace if e[1] == "nextstage")
+        run.faults.append("dupnext")
+        run.apply(["spawn", "dupnext", 2, rc])
+    run.until(lambda: False)
+
+
+def script_sbatch_outage(run):
+    """every sbatch of stage 2's first round fails: the stage completes (return code 1) inside its own submission and the
+    hand-off to stage 3 runs NESTED in the process that is still submitting stage 2.  Unchanged code: the pipeline goes on."""
+    vc = run.vc
+    run.apply(["spawn", "psubmit"])
+
+    def submitting2():
+        return [p for p in vc.live() if p.kind == "nextstage" and any(e[3] == 2 for e in run.pid_events(p.pid, "stagesubmit"))
+                and not run.pid_events(p.pid, "sbatch")]
+    if run.until(lambda: bool(submitting2())):
+        run.faults.append("sbatchfail")
+        run.apply(["failext", submitting2()[0].pid, 99, "sbatch"])
+    run.until(lambda: False)
+
+
+SCRIPTS = {"squeue_outage_while_batch_runs": script_squeue_outage, "teardown_fork_failure": script_teardown_fork_failure,
+           "duplicate_handoff": script_duplicate_handoff, "sbatch_outage_nested_handoff": script_sbatch_outage}
 
 
 # ----------------------------------------------------------------------------------------------
